@@ -12,6 +12,7 @@ import sys
 import time
 
 VERIF = os.path.dirname(os.path.dirname(os.path.abspath(__file__)))
+sys.path.insert(0, os.path.join(VERIF, "tools"))
 
 
 def sh(cmd, cwd=None, timeout=3600):
@@ -19,22 +20,12 @@ def sh(cmd, cwd=None, timeout=3600):
     return p.returncode, p.stdout.decode("utf-8", "replace")
 
 
-def main():
-    pat = sys.argv[1]
-    extra = sys.argv[2:]
-    rc, o = sh("git -C /repo status --porcelain")
-    assert o.strip() == "", "/repo is not clean: " + o
-    for sid in sorted(os.listdir(os.path.join(VERIF, "seeded"))):
-        if not fnmatch.fnmatch(sid, pat):
-            continue
-        d = os.path.join(VERIF, "seeded", sid)
-        meta = json.load(open(os.path.join(d, "meta.json")))
-        props = [meta["property"]] + [p for p in extra if p != meta["property"]]
+def in_place(d, sid, props):
         rc, o = sh("git -C /repo apply %s" % os.path.join(d, "patch.diff"))
         if rc != 0:
             print(sid, "patch does not apply:", o[-300:])
             sh("git -C /repo checkout -- .")
-            continue
+            return None
         res = {}
         try:
             for pid in props:
@@ -51,13 +42,40 @@ def main():
                         os.replace(src, os.path.join(d, "replay_%s.json" % pid))
         finally:
             sh("git -C /repo checkout -- .")
+        return res
+
+
+def main():
+    pat = sys.argv[1]
+    extra = sys.argv[2:]
+    if not os.environ.get("SEED_ISOLATED"):
+        rc, o = sh("git -C /repo status --porcelain")
+        assert o.strip() == "", "/repo is not clean: " + o
+    for sid in sorted(os.listdir(os.path.join(VERIF, "seeded"))):
+        if not fnmatch.fnmatch(sid, pat):
+            continue
+        d = os.path.join(VERIF, "seeded", sid)
+        meta = json.load(open(os.path.join(d, "meta.json")))
+        props = [meta["property"]] + [p for p in extra if p != meta["property"]]
+        if os.environ.get("SEED_ISOLATED"):
+            import try_seeded
+            res = {}
+            try_seeded.check_isolated(res, props, os.path.join(d, "patch.diff"), sid)
+            for r in res.values():
+                r.pop("tail", None)
+                r.pop("violation_lines", None)
+        else:
+            res = in_place(d, sid, props)
+            if res is None:
+                continue
         meta["checks_rerun"] = res
         json.dump(meta, open(os.path.join(d, "meta.json"), "w"), indent=1)
         print(sid, {p: ("input" if r["with_failing_input"] else "tie" if r["detected"] else "MISSED", [b.split(":")[1].strip() for b in r["broken"]]) for p, r in res.items()})
         sys.stdout.flush()
-    sh("git checkout -- evidence", cwd=VERIF)
-    rc, o = sh("git -C /repo status --porcelain")
-    assert o.strip() == "", "/repo not restored: " + o
+    if not os.environ.get("SEED_ISOLATED"):
+        sh("git checkout -- evidence", cwd=VERIF)
+        rc, o = sh("git -C /repo status --porcelain")
+        assert o.strip() == "", "/repo not restored: " + o
 
 
 if __name__ == "__main__":
